@@ -661,6 +661,35 @@ func lazyOne(c *Ctx, t *lazyTarget, b []byte, second []byte, what string, fixed 
 	c.Stat("scripts_equal")
 }
 
+// lazySNaN32 reports whether the (well-formed) input holds a signalling NaN in a float field.
+// protoreflect hands float32 values out as float64; the conversion quiets the NaN, so the dump
+// (through reflection) cannot show the stored bits.  Such inputs get no dump comparison.
+func lazySNaN32(md protoreflect.MessageDescriptor, b []byte) bool {
+	roots, ok := dectotParse(md, b, 8)
+	if !ok {
+		return false
+	}
+	var all []*dectotNode
+	dectotCollect(roots, &all)
+	snan := func(bits uint32) bool { return bits&0x7f800000 == 0x7f800000 && bits&0x007fffff != 0 && bits&0x00400000 == 0 }
+	for _, nd := range all {
+		if nd.fd == nil || nd.fd.Kind() != protoreflect.FloatKind {
+			continue
+		}
+		raw := nd.raw
+		if nd.typ != protowire.Fixed32Type && nd.typ != protowire.BytesType {
+			continue
+		}
+		for len(raw) >= 4 {
+			if snan(uint32(raw[0]) | uint32(raw[1])<<8 | uint32(raw[2])<<16 | uint32(raw[3])<<24) {
+				return true
+			}
+			raw = raw[4:]
+		}
+	}
+	return false
+}
+
 // lazyCase emits the model-compared observation of one input: the lazy verdicts, Marshal of the
 // untouched message (the retained bytes of still-lazy fields) and the dump after reading everything.
 func lazyCase(c *Ctx, t *lazyTarget, b []byte, limit int, cL, sL string) {
@@ -674,6 +703,10 @@ func lazyCase(c *Ctx, t *lazyTarget, b []byte, limit int, cL, sL string) {
 			c.Stat("case_skipped_FWB5")
 			return
 		}
+	}
+	if cL == "ok" && lazySNaN32(t.md, b) {
+		c.Stat("case_skipped_snan32")
+		return
 	}
 	if t.id == "" {
 		t.id = msgSchemaOf(c, t.md)
